@@ -58,8 +58,14 @@ META = {
                  'resolution / sqlrepr dispatch (Model/ExprX.lean binopX, cmpX, findMethod, sqlreprD); parameters: table / field '
                  'names, repr of int / float, the column from_python conversion (identity on the compared constants in the whole-tree '
                  'theorems); Spells relates tokens to text (that the text lexes back to exactly these tokens is the tokeniser of this harness)',
-                 'Select objects (clone / filter / newClause) are not translated: object re-use and non-mutation are checked on the real '
-                 'code by the re-use stream (derive from a base expression / base Select, then use the base again)',
+                 'sqlbuilder.Select is translated (vlib/extractors/pysel.py -> Extracted/PySel.lean, embedding Model/PySel.lean with a HEAP for '
+                 'the ops dict, instantiation Model/SelX.lean): __init__, clone (C03_translated_Select_clone_fresh: deriving never writes a cell '
+                 'that existed before), the derivers, filter (= AND of the clauses, C03_translated_Select_filter_eq_model / _filter_sound), '
+                 'tablesUsedSet / components / tablesUsedImmediate (C03_translated_tablesUsed_eq_model; list operands are not descended into) and '
+                 '_str_or_sqlrepr are proved for all inputs; Select.__sqlrepr__ is translated in full but proved statement by statement only '
+                 '(DISTINCT, items, FROM, WHERE, FOR UPDATE) - the loops collecting the table set, GROUP BY / HAVING / ORDER BY and the '
+                 'LIMIT hand-off (dbConnectionForScheme(db)._queryAddLimitOffset = parameter) are tied by the re-use and clause-plumbing streams; '
+                 'hand-written: argument binding with defaults (bindParams), hasattr / method resolution along the class chain, sorted() order',
                  'Python reflected-operator dispatch (int <op> expr) and IntCol.from_python on ints (identity)',
                  'integer arithmetic is unbounded in the model; cases whose intermediate values leave int64 are skipped'],
     'assumptions': ['well-typed fragment only: operands of arithmetic/comparison are numeric, operands of AND/OR/NOT are boolean; '
